@@ -15,8 +15,9 @@ Lemma nth_leave s c c' :
   if Nat.eqb c c'
   then match nth_error (v_conns s) c with
        | Some x => if k_client_open x
-                   then Some {| k_client_open := false; k_session := false;
-                                k_replies := k_replies x; k_hello := k_hello x |}
+                   then Some {| k_client_open := false; k_session := k_waiting x;
+                                k_replies := k_replies x; k_hello := k_hello x;
+                                k_waiting := k_waiting x |}
                    else Some x
        | None => None
        end
@@ -34,42 +35,58 @@ Proof.
 Qed.
 
 (** after client c has left, its session is over - and stays over whoever else leaves *)
-Lemma session_over_after_leave s c x :
-  Inv s -> nth_error (v_conns (step s (LLeave c))) c = Some x -> k_session x = false.
+Definition nobody_waits (s : srv) : Prop :=
+  forall c k, nth_error (v_conns s) c = Some k -> k_waiting k = false.
+
+Lemma nobody_waits_leave s c : nobody_waits s -> nobody_waits (step s (LLeave c)).
 Proof.
-  intros I H. rewrite nth_leave, Nat.eqb_refl in H.
+  intros N c' k H. rewrite nth_leave in H. destruct (Nat.eqb c c').
+  - destruct (nth_error (v_conns s) c) as [y|] eqn:Hy; [|discriminate].
+    destruct (k_client_open y); injection H as <-; cbn; eapply N; eauto.
+  - eapply N; eauto.
+Qed.
+
+Lemma session_over_after_leave s c x :
+  Inv s -> nobody_waits s ->
+  nth_error (v_conns (step s (LLeave c))) c = Some x -> k_session x = false.
+Proof.
+  intros I N H. rewrite nth_leave, Nat.eqb_refl in H.
   destruct (nth_error (v_conns s) c) as [y|] eqn:Hy; [|discriminate].
+  pose proof (N c y Hy) as Hw.
   destruct (k_client_open y) eqn:Ho.
-  - injection H as <-. reflexivity.
+  - injection H as <-. cbn. exact Hw.
   - injection H as <-. destruct (k_session y) eqn:Hs; [|reflexivity].
-    pose proof (inv_session_client _ I c y Hy Hs). congruence.
+    pose proof (inv_session_client _ I c y Hy Hs Hw). congruence.
 Qed.
 
 Lemma session_over_stays s c c' x :
+  nobody_waits s ->
   nth_error (v_conns s) c = Some x -> k_session x = false ->
   exists y, nth_error (v_conns (step s (LLeave c'))) c = Some y /\ k_session y = false.
 Proof.
-  intros Hx Hs. rewrite nth_leave. destruct (Nat.eqb_spec c' c) as [->|Hne].
+  intros N Hx Hs. rewrite nth_leave. destruct (Nat.eqb_spec c' c) as [->|Hne].
   - rewrite Hx. destruct (k_client_open x); eexists; split; try reflexivity; auto.
+    cbn. eapply N; eauto.
   - eexists; split; [exact Hx|exact Hs].
 Qed.
 
 Lemma leave_list_over cs : forall s c x,
-  Inv s -> In c cs ->
+  Inv s -> nobody_waits s -> In c cs ->
   nth_error (v_conns (fold_left step (map LLeave cs) s)) c = Some x -> k_session x = false.
 Proof.
-  induction cs as [|a t IH]; intros s c x I Hin Hx; [destruct Hin|].
+  induction cs as [|a t IH]; intros s c x I N Hin Hx; [destruct Hin|].
   cbn [map fold_left] in Hx. destruct Hin as [->|Hin].
   - (* c leaves first; afterwards the fact is preserved along t *)
-    assert (Hpres : forall l u, Inv u ->
+    assert (Hpres : forall l u, Inv u -> nobody_waits u ->
               (exists y, nth_error (v_conns u) c = Some y /\ k_session y = false) ->
               exists y, nth_error (v_conns (fold_left step (map LLeave l) u)) c = Some y /\
                         k_session y = false).
-    { induction l as [|b l IHl]; intros u Iu Hy; [exact Hy|].
-      cbn [map fold_left]. apply IHl; [apply Inv_step; exact Iu|].
+    { induction l as [|b l IHl]; intros u Iu Nu Hy; [exact Hy|].
+      cbn [map fold_left]. apply IHl; [apply Inv_step; exact Iu|apply nobody_waits_leave; exact Nu|].
       destruct Hy as (y & Hy1 & Hy2). eapply session_over_stays; eauto. }
     destruct (nth_error (v_conns (step s (LLeave c))) c) as [y|] eqn:Hy.
-    + destruct (Hpres t (step s (LLeave c)) (Inv_step _ _ I)) as (z & Hz1 & Hz2).
+    + destruct (Hpres t (step s (LLeave c)) (Inv_step _ _ I) (nobody_waits_leave _ _ N))
+        as (z & Hz1 & Hz2).
       { exists y. split; [exact Hy|]. eapply session_over_after_leave; eauto. }
       rewrite Hx in Hz1. injection Hz1 as ->. exact Hz2.
     + (* c is not a connection: the lengths never change, so it cannot appear later *)
@@ -81,20 +98,21 @@ Proof.
       assert (Hsome : c < length (v_conns (fold_left step (map LLeave t) (step s (LLeave c)))))
         by (apply nth_error_Some; congruence).
       rewrite Hlen in Hsome. lia.
-  - eapply IH; [apply Inv_step; exact I|exact Hin|exact Hx].
+  - eapply IH; [apply Inv_step; exact I|apply nobody_waits_leave; exact N|exact Hin|exact Hx].
 Qed.
 
-(** The stop completes once the connected clients have gone: after the serving task was cancelled,
+(** The stop completes once the connected clients have gone - provided no session is inside a
+    waiting command (see Thm_C19.C19_stop_waits_for_waiting_session for what happens otherwise): after the serving task was cancelled,
     when every client (in any order, each possibly more than once) has disconnected, the task is
     done, the address stays closed and a Unix server's socket file is gone. *)
 Theorem stop_completes : forall k tr cs,
   let s := run k tr in
-  v_stopreq s = true ->
+  v_stopreq s = true -> nobody_waits s ->
   (forall c, c < length (v_conns s) -> In c cs) ->
   let s' := fold_left step (map LLeave cs) s in
   v_done s' = true /\ v_listening s' = false /\ v_sockfile s' = false.
 Proof.
-  intros k tr cs s Hs Hall s'.
+  intros k tr cs s Hs N Hall s'.
   assert (I : Inv s) by apply Inv_run.
   assert (I' : Inv s').
   { unfold s'. clear Hall. generalize s I. induction cs as [|a t IH]; intros u Iu; [exact Iu|].
@@ -113,7 +131,7 @@ Proof.
   { apply (inv_done_iff _ I' Hs'). unfold all_sessions_ended. apply forallb_forall.
     intros x Hx. apply In_nth_error in Hx. destruct Hx as [c Hc].
     assert (Hlt : c < length (v_conns s)) by (rewrite <- Hlen; apply nth_error_Some; congruence).
-    rewrite (leave_list_over cs s c x I (Hall c Hlt) Hc). reflexivity. }
+    rewrite (leave_list_over cs s c x I N (Hall c Hlt) Hc). reflexivity. }
   split; [exact Hd|]. split.
   - exact (proj1 (inv_stopped _ I' Hs')).
   - exact (inv_sock_gone _ I' Hd).
